@@ -2,13 +2,20 @@ package server
 
 // C07 — partition leadership changes are safe and fenced by epochs.
 //
-// One real server is the controller; the partition's replicas exist only in the metadata
-// (so nothing but the harness reports leaders or changes the ISR). The harness issues leader
-// reports from every kind of sender (in-sync followers, out-of-sync replicas, the leader itself,
-// strangers), ISR shrinks and expansions carrying the current or a stale (leader, epoch) pair,
-// lets simulated time pass around the failover timeout, and makes the controller lose and regain
-// metadata leadership. After every operation the partition's state is read back and judged
-// against a small reference of the rules in the statement.
+// Single mode: one real server is the controller (in some programs a second one is there to forward
+// requests and to take the metadata leadership over); the replicas of the stream's one to three
+// partitions exist only in the metadata, so nothing but the harness reports leaders or changes the ISR.
+// The harness issues leader reports from every kind of sender (in-sync followers, out-of-sync replicas,
+// the leader itself, strangers) one by one or several at the same time, ISR shrinks and expansions
+// carrying the current or a stale (leader, epoch) pair (earlier generation, future / lower / zero epoch,
+// other or empty leader), operations that are stale only when they are applied (proposed straight to
+// Raft), lets simulated time pass around the failover timeout, makes the controller lose and regain
+// metadata leadership, restarts servers (from the Raft log or from a snapshot), pauses and resumes
+// partitions, deletes and re-creates the stream. After every operation every partition's state is read
+// back and judged against a small reference of the rules in the statement; a partition that the
+// operation did not address must be what it was.
+//
+// Cluster mode: the failover chains of C02 on real replicas, see c07Cluster.boundary.
 
 import (
 	"fmt"
@@ -17,6 +24,7 @@ import (
 	"testing"
 	"time"
 
+	"github.com/hashicorp/raft"
 	proto "github.com/liftbridge-io/liftbridge/server/protocol"
 
 	"verif.local/simrt"
@@ -35,6 +43,9 @@ func genC07(r *simrt.Rand, tier string, idx int) *hx.Program {
 		// judged at every operation boundary (see c07ClusterBoundary)
 		p := genC02(r, tier, idx)
 		p.P["cluster"] = 1
+		if r.Pct(35) {
+			p.P["snap"] = int64(1 + r.Intn(8)) // servers snapshot their metadata now and then (see c07Cluster.boundary)
+		}
 		return p
 	}
 	p := &hx.Program{P: map[string]int64{}}
@@ -43,12 +54,43 @@ func genC07(r *simrt.Rand, tier string, idx int) *hx.Program {
 	p.P["replicas"] = int64(2 + r.Intn(4)) // 2..5
 	p.P["isr"] = int64(1 + r.Intn(int(p.P["replicas"])))
 	p.P["timeout_ms"] = []int64{1000, 3000}[r.Intn(2)]
+	// one to three partitions with different leaders and in-sync sets; what addresses one must leave the others alone
+	p.P["parts"] = 1
+	if r.Pct(40) {
+		p.P["parts"] = int64(2 + r.Intn(2))
+	}
+	// a second server that is no replica: half of the requests arrive there and are forwarded to the
+	// controller, and the metadata leadership can move between the two
+	if r.Pct(15) {
+		p.P["two"] = 1
+	}
+	// swarm: each program draws which of the rarer operation kinds it uses at all
+	mix := append([]weighted{}, c07mix...)
+	if r.Pct(45) {
+		mix = append(mix, weighted{"creport", 14}) // reports in flight at the same time
+	}
+	if !avoidReportsInFlightDuringFailover {
+		p.P["inflight_past_quorum"] = 1
+	}
+	if r.Pct(40) {
+		mix = append(mix, weighted{"raw", 8}) // operations that are stale when they are applied
+	}
+	if r.Pct(25) {
+		mix = append(mix, weighted{"recreate", 2})
+	}
+	if r.Pct(25) {
+		mix = append(mix, weighted{"pause", 3}, weighted{"resume", 3})
+	}
+	if r.Pct(25) {
+		mix = append(mix, weighted{"restart", 2})
+	}
 	n := 8 + r.Intn(30)
 	if tier == "thorough" {
 		n = 8 + r.Intn(90)
 	}
 	for i := 0; i < n; i++ {
-		p.Ops = append(p.Ops, hx.Op{K: pickWeighted(r, c07mix), A: []int64{int64(r.Intn(8)), int64(r.Intn(8)), int64(r.Intn(8))}})
+		// arguments: three op-specific ones, the partition, where the request is sent
+		p.Ops = append(p.Ops, hx.Op{K: pickWeighted(r, mix), A: []int64{int64(r.Intn(8)), int64(r.Intn(8)), int64(r.Intn(8)), int64(r.Intn(6)), int64(r.Intn(4))}})
 	}
 	return p
 }
@@ -66,7 +108,7 @@ func (s c07State) String() string {
 }
 
 type c07Report struct {
-	at      time.Duration
+	t0, t1  time.Duration // the call began / returned (the report was registered somewhere in between)
 	replica string
 	leader  string
 	lepoch  uint64
@@ -74,32 +116,134 @@ type c07Report struct {
 
 // c07Cluster is the state of the metadata monitor of a cluster-mode run.
 type c07Cluster struct {
-	leaderOf map[uint64]string // leader epoch -> leader, over all servers and the whole run
-	last     map[int]c07State  // simulation node (one incarnation of a server) -> last state read
-	reads    int
+	leaderOf   map[uint64]string  // leader epoch -> leader, over all servers and the whole run
+	leadingIn  map[uint64]string  // leader epoch -> the server seen acting as the leader in it
+	last       map[int]c07State   // simulation node (one incarnation of a server) -> last state read
+	aheadUntil map[int]uint64     // simulation node -> Raft index from which its state is a function of its applied index
+	lastOf     map[int]c07Applied // server (across its incarnations) -> last state read and how much of the Raft log it reflected
+	reads      int
+	bounds     int
+	snaps      int
+	leading    int
+	compared   int
+	acrossRest int
+}
+
+type c07Applied struct {
+	st      c07State
+	applied uint64
+	node    int
+}
+
+// c07RaftView is what the committed metadata operations up to and including index upTo make of the
+// partition, by the rules of the statement: the leader epoch is the index of the operation that installed
+// the leader, an ISR change that names another leader generation than the current one is refused, a
+// leader change to a replica outside the in-sync set is refused.
+func c07RaftView(c *cluster, upTo uint64) (st c07State, exists bool) {
+	isr := map[string]bool{}
+	for _, e := range c.h.cluster.Log {
+		if e.Index > upTo {
+			break
+		}
+		if e.Type != raft.LogCommand {
+			continue
+		}
+		op := &proto.RaftLog{}
+		if op.Unmarshal(e.Data) != nil {
+			continue
+		}
+		switch op.Op {
+		case proto.Op_CREATE_STREAM:
+			if op.CreateStreamOp.Stream.Name == clStream {
+				p := op.CreateStreamOp.Stream.Partitions[0]
+				st = c07State{leader: p.Leader, lepoch: e.Index, epoch: e.Index, replicas: append([]string(nil), p.Replicas...)}
+				isr = map[string]bool{}
+				for _, r := range p.Isr {
+					isr[r] = true
+				}
+				exists = true
+			}
+		case proto.Op_DELETE_STREAM:
+			if op.DeleteStreamOp.Stream == clStream {
+				exists = false
+			}
+		case proto.Op_SHRINK_ISR:
+			if o := op.ShrinkISROp; exists && o.Stream == clStream && (o.Leader == "" || (o.Leader == st.leader && o.LeaderEpoch == st.lepoch)) {
+				delete(isr, o.ReplicaToRemove)
+				st.epoch = e.Index
+			}
+		case proto.Op_EXPAND_ISR:
+			if o := op.ExpandISROp; exists && o.Stream == clStream && (o.Leader == "" || (o.Leader == st.leader && o.LeaderEpoch == st.lepoch)) {
+				isr[o.ReplicaToAdd] = true
+				st.epoch = e.Index
+			}
+		case proto.Op_CHANGE_LEADER:
+			if o := op.ChangeLeaderOp; exists && o.Stream == clStream && isr[o.Leader] {
+				st.leader, st.lepoch, st.epoch = o.Leader, e.Index, e.Index
+			}
+		}
+	}
+	for r := range isr {
+		st.isr = append(st.isr, r)
+	}
+	sort.Strings(st.isr)
+	sort.Strings(st.replicas)
+	return
 }
 
 // c07ClusterBoundary reads the partition's metadata on every running server (one consistent snapshot
 // under the partition's lock) and judges what the statement says about it: the leader is in the in-sync
 // set, which is a subset of the replicas; on one server the partition epoch and the leader epoch never
-// decrease; a leader epoch has one leader, whichever server reports it and whenever.
+// decrease - also not from one incarnation of the server to the next, once the new one has applied more
+// of the Raft log than the old one had; a leader epoch has one leader, whichever server reports it and
+// whenever; a server that acts as the leader is the leader its own metadata name, and one server acts as
+// the leader in a leader epoch; a server that has applied all it knows to be committed holds exactly what
+// the committed operations make of the partition.
 func (m *c07Cluster) boundary(c *cluster, final bool) {
 	h := c.h
+	m.bounds++
+	if snap := int(h.prog.Param("snap", 0)); snap > 0 && !final && (m.bounds*5+snap)%4 == 0 {
+		// a server persists a snapshot of its metadata and compacts its Raft log: its next incarnation starts
+		// from the snapshot, not from the operations
+		if n := h.nodes[(m.bounds+snap)%len(h.nodes)]; n.up {
+			if r := h.cluster.Node(raft.ServerID(n.id)); r != nil {
+				r.RequestSnapshot([]uint64{0, 2}[(m.bounds/4)%2])
+				m.snaps++
+			}
+		}
+	}
 	for _, n := range h.nodes {
 		p := c.partition(n)
 		if p == nil {
 			continue
 		}
 		var st c07State
+		var isLeading bool
+		var applied, commit uint64
 		ok := false
 		died := h.do(n.node, "read-meta", func() {
+			r, _ := n.srv.raft.Load().(*raftNode)
 			simrt.RLock(&p.mu)
 			st.leader, st.lepoch, st.epoch = p.Leader, p.LeaderEpoch, p.Epoch
+			// (a server that is stepping down has closed stopLeader and releases the lock while it waits for
+			// its loops to end: it no longer acts as the leader although the flag is still set)
+			isLeading = p.isLeading && p.stopLeader != nil
+			if isLeading {
+				select {
+				case <-p.stopLeader:
+					isLeading = false
+				default:
+				}
+			}
 			for r := range p.isr {
 				st.isr = append(st.isr, r)
 			}
 			for r := range p.replicas {
 				st.replicas = append(st.replicas, r)
+			}
+			if r != nil && r.Raft != nil {
+				// (plain reads, no yield since the lock was taken: an operation that is being applied shows as applied < commit)
+				applied, commit = r.AppliedIndex(), r.CommitIndex()
 			}
 			p.mu.RUnlock()
 			ok = true
@@ -134,6 +278,16 @@ func (m *c07Cluster) boundary(c *cluster, final bool) {
 			return
 		}
 		m.last[n.node] = st
+		if prev, seen := m.lastOf[n.idx]; seen && prev.node != n.node && applied > prev.applied {
+			m.acrossRest++
+			if st.lepoch < prev.st.lepoch || st.epoch < prev.st.epoch {
+				h.fail("C07/epochs", "C07/epoch-decreased-across-restart", "server %s had applied the Raft log up to %d before its restart: %s; having applied it up to %d it now says %s", n.id, prev.applied, prev.st, applied, st)
+				return
+			}
+		}
+		if prev, seen := m.lastOf[n.idx]; !seen || prev.node == n.node || applied > prev.applied {
+			m.lastOf[n.idx] = c07Applied{st: st, applied: applied, node: n.node}
+		}
 		if st.leader != "" {
 			if l, seen := m.leaderOf[st.lepoch]; seen && l != st.leader {
 				h.fail("C07/epochs", "C07/two-leaders-in-one-epoch", "leader epoch %d had leader %s; server %s now says %s", st.lepoch, l, n.id, st.leader)
@@ -141,11 +295,44 @@ func (m *c07Cluster) boundary(c *cluster, final bool) {
 			}
 			m.leaderOf[st.lepoch] = st.leader
 		}
+		if isLeading {
+			m.leading++
+			if st.leader != n.id {
+				h.fail("C07/epochs", "C07/acting-leader-is-not-the-leader", "server %s acts as the leader of the partition while its own metadata say %s", n.id, st)
+				return
+			}
+			if l, seen := m.leadingIn[st.lepoch]; seen && l != n.id {
+				h.fail("C07/epochs", "C07/two-servers-lead-in-one-epoch", "in leader epoch %d server %s acted as the leader; now server %s does (%s)", st.lepoch, l, n.id, st)
+				return
+			}
+			m.leadingIn[st.lepoch] = n.id
+		}
+		// A server that started from a snapshot may be ahead of the index the snapshot is labelled with: the
+		// snapshot shares the partitions' records with the state machine, and it is written out while later
+		// operations are applied (the operations are idempotent by epoch, so replaying them is harmless).
+		// Whatever the earlier incarnation had applied was committed when this one was first seen: from there
+		// on the server's state is a function of its applied index again.
+		if _, seen := m.aheadUntil[n.node]; !seen {
+			m.aheadUntil[n.node] = 0
+			if n.restarts > 0 {
+				m.aheadUntil[n.node] = h.cluster.CommitIndex()
+			}
+		}
+		if applied > 0 && applied == commit && applied >= m.aheadUntil[n.node] {
+			want, exists := c07RaftView(c, applied)
+			if exists {
+				m.compared++
+				if want.String() != st.String() {
+					h.fail("C07/fencing", "C07/metadata-differ-from-committed-operations", "server %s has applied the Raft log up to %d and says %s; the committed operations up to there make it %s", n.id, applied, st, want)
+					return
+				}
+			}
+		}
 	}
 }
 
 func execC07Cluster(t *testing.T, prog *hx.Program, dec *simrt.Decider, verbose bool) *hx.Outcome {
-	m := &c07Cluster{leaderOf: map[uint64]string{}, last: map[int]c07State{}}
+	m := &c07Cluster{leaderOf: map[uint64]string{}, leadingIn: map[uint64]string{}, last: map[int]c07State{}, lastOf: map[int]c07Applied{}, aheadUntil: map[int]uint64{}}
 	var c *cluster
 	oc := runH3(t, prog, dec, verbose, int(prog.Param("nodes", 3)), func(h *h3) {
 		c = runCluster(h, clusterHooks{boundary: m.boundary})
@@ -166,161 +353,434 @@ func execC07Cluster(t *testing.T, prog *hx.Program, dec *simrt.Decider, verbose 
 	oc.Counters["probe.cluster_mode_runs"] = 1
 	oc.Counters["probe.cluster_metadata_reads"] = m.reads
 	oc.Counters["probe.cluster_leader_epochs"] = len(m.leaderOf)
+	oc.Counters["probe.cluster_acting_leader_reads"] = m.leading
+	oc.Counters["probe.cluster_compared_with_committed"] = m.compared
+	oc.Counters["probe.cluster_compared_across_restart"] = m.acrossRest
+	oc.Counters["probe.cluster_snapshots_requested"] = m.snaps
 	oc.Nontrivial = m.reads >= 6 && len(m.leaderOf) >= 2
 	return oc
+}
+
+// ---- single mode -------------------------------------------------------------------------------------
+
+// avoidReportsInFlightDuringFailover: FINDING on the unchanged tree (see c07Run.creport): a report that
+// arrives while the election triggered by an earlier report is still being replicated triggers a second
+// election (failover.go report(): the witnesses stay complete until the first election has returned).
+// While this is true the generator (never the oracle) shapes the concurrent rounds of reports so that at
+// most one report can arrive once the quorum is complete; a program with the parameter
+// "inflight_past_quorum" = 1 is executed unshaped whatever this says (the recorded replay has it).
+const avoidReportsInFlightDuringFailover = true
+
+// c07Part is the reference state of one partition of the stream.
+type c07Part struct {
+	id       int32
+	reports  []c07Report       // reports of the current generation that may count as witnesses, in order of completion
+	leaderOf map[uint64]string // leader epoch -> leader, over the whole run
+	stale    []c07State        // earlier (leader, epoch) generations
+	paused   bool
+}
+
+type c07Run struct {
+	h        *h3
+	timeout  time.Duration
+	replicas []string
+	senders  []string
+	nisr     int
+	two      bool
+	parts    []*c07Part
+	gen      int // incarnation of the stream (delete + create)
+	cnt      map[string]int
+}
+
+// c07Judge says what happened to a partition in one step, i.e. what the statement allows to have changed.
+type c07Judge struct {
+	reporting bool  // reports naming the current leader and epoch were made
+	stale     bool  // the request named a stale leader or epoch: must be refused with an error, nothing changes
+	silent    bool  // a committed operation that the state machine must ignore (no error is visible): nothing changes
+	frozen    bool  // nothing addressed this partition: nothing changes
+	err       error // outcome of the request
+	t0        time.Duration
+}
+
+func c07in(xs []string, x string) bool {
+	for _, y := range xs {
+		if y == x {
+			return true
+		}
+	}
+	return false
+}
+
+func (x *c07Run) ctl() *simNode {
+	h := x.h
+	if c := h.controller(); c != nil {
+		return c
+	}
+	c := h.waitController(60 * time.Second)
+	if c == nil && h.oc.Trouble == "" && len(h.s.Panics) == 0 {
+		h.oc.Trouble = "no controller within 60 simulated seconds"
+	}
+	return c
+}
+
+// other is the running server that is not the controller (two-server programs).
+func (x *c07Run) other(ctl *simNode) *simNode {
+	for _, n := range x.h.nodes {
+		if n != ctl && n.up {
+			return n
+		}
+	}
+	return nil
+}
+
+// read takes one consistent snapshot of a partition's metadata on server n.
+func (x *c07Run) read(n *simNode, pid int32) c07State {
+	var st c07State
+	x.h.do(n.node, "read-state", func() {
+		p := n.srv.metadata.GetPartition(c07Stream, pid)
+		if p == nil {
+			return
+		}
+		simrt.RLock(&p.mu)
+		st.leader, st.lepoch, st.epoch = p.Leader, p.LeaderEpoch, p.Epoch
+		for r := range p.isr {
+			st.isr = append(st.isr, r)
+		}
+		for r := range p.replicas {
+			st.replicas = append(st.replicas, r)
+		}
+		p.mu.RUnlock()
+	})
+	sort.Strings(st.isr)
+	sort.Strings(st.replicas)
+	return st
+}
+
+func (x *c07Run) readAll() []c07State {
+	n := x.ctl()
+	if n == nil {
+		return nil
+	}
+	out := make([]c07State, len(x.parts))
+	for i, pt := range x.parts {
+		out[i] = x.read(n, pt.id)
+		if out[i].leader == "" && x.h.oc.Trouble == "" && len(x.h.s.Panics) == 0 && !x.h.stop {
+			x.h.oc.Trouble = fmt.Sprintf("partition %d not found on the controller %s", pt.id, n.id)
+			return nil
+		}
+	}
+	return out
+}
+
+// raw proposes a metadata operation on the controller the way the controller's own code paths do
+// (applyOperation) and waits until it is applied there.
+func (x *c07Run) raw(n *simNode, name string, op *proto.RaftLog) error {
+	var rerr error
+	ok := x.h.rpc(n, name, func(api *apiServer) {
+		ctx, cancel := ctxT(20 * time.Second)
+		defer cancel()
+		future, err := n.srv.getRaft().applyOperation(ctx, op, nil)
+		if err != nil {
+			rerr = err
+			return
+		}
+		rerr = future.Error()
+	})
+	if !ok && rerr == nil {
+		rerr = fmt.Errorf("server died")
+	}
+	return rerr
+}
+
+// rawSure is raw for the operations the harness needs to succeed (the life cycle of the stream): a failure
+// injected by an earlier 'failraft' hits the first attempt and is used up by it.
+func (x *c07Run) rawSure(n *simNode, name string, op *proto.RaftLog) error {
+	injected := x.h.cluster.FailApplies > 0
+	err := x.raw(n, name, op)
+	if err != nil && injected && x.h.cluster.FailApplies == 0 && len(x.h.s.Panics) == 0 {
+		err = x.raw(n, name, op)
+	}
+	return err
+}
+
+// create proposes the stream: partition k has the replicas rotated by k (+ the stream's incarnation), the
+// first nisr of them in sync, the first one leading - so the partitions have different leaders.
+func (x *c07Run) create(n *simNode) error {
+	var parts []*proto.Partition
+	nrep := len(x.replicas)
+	for _, pt := range x.parts {
+		var rot []string
+		for i := 0; i < nrep; i++ {
+			rot = append(rot, x.replicas[(i+int(pt.id)+x.gen)%nrep])
+		}
+		parts = append(parts, &proto.Partition{Stream: c07Stream, Subject: c07Stream, Id: pt.id, ReplicationFactor: int32(nrep),
+			Replicas: append([]string(nil), rot...), Isr: append([]string(nil), rot[:x.nisr]...), Leader: rot[0]})
+	}
+	return x.rawSure(n, "create", &proto.RaftLog{Op: proto.Op_CREATE_STREAM, CreateStreamOp: &proto.CreateStreamOp{Stream: &proto.Stream{
+		Name: c07Stream, Subject: c07Stream, Config: &proto.StreamConfig{}, Partitions: parts}}})
+}
+
+// stalePair picks a (leader, epoch) pair that is not the partition's current one.
+func (x *c07Run) stalePair(pt *c07Part, cur c07State, a1, a2 int64, allowEmpty bool) (string, uint64, string) {
+	otherLeader := func() string {
+		for i := 0; i < len(x.senders); i++ {
+			if s := x.senders[(int(a2)+i)%len(x.senders)]; s != cur.leader {
+				return s
+			}
+		}
+		return "stranger"
+	}
+	v := int(a1) % 7
+	if v == 0 && len(pt.stale) == 0 {
+		v = 1
+	}
+	if v == 5 && !allowEmpty {
+		v = 2
+	}
+	switch v {
+	case 0:
+		g := pt.stale[int(a2)%len(pt.stale)]
+		if g.leader != cur.leader || g.lepoch != cur.lepoch {
+			return g.leader, g.lepoch, "earlier-generation"
+		}
+		return cur.leader, cur.lepoch + 1, "future-epoch"
+	case 1:
+		return cur.leader, cur.lepoch + 1 + uint64(a2), "future-epoch"
+	case 2:
+		return otherLeader(), cur.lepoch, "current-epoch-other-leader"
+	case 3:
+		d := 1 + uint64(a2)
+		if d > cur.lepoch {
+			d = cur.lepoch
+		}
+		return cur.leader, cur.lepoch - d, "lower-epoch-current-leader"
+	case 4:
+		return cur.leader, 0, "epoch-zero"
+	case 5:
+		return "", cur.lepoch, "empty-leader"
+	default:
+		return otherLeader(), cur.lepoch - 1, "lower-epoch-other-leader"
+	}
+}
+
+func (x *c07Run) reportRPC(via *simNode, pid int32, sender, leader string, lepoch uint64) error {
+	var err error
+	ctx, cancel := ctxT(10 * time.Second)
+	defer cancel()
+	if st := via.srv.metadata.ReportLeader(ctx, &proto.ReportLeaderOp{Stream: c07Stream, Partition: pid, Replica: sender, Leader: leader, LeaderEpoch: lepoch}); st != nil {
+		err = st.Err()
+	}
+	return err
+}
+
+// countsAsMade: a report that was not turned away for what it says (generation, sender) may have been
+// registered as a witness, whatever became of the election it triggered.
+func c07countsAsMade(err error) bool {
+	if err == nil {
+		return true
+	}
+	for _, s := range []string{"Leader generation mismatch", "is not an in-sync follower", "No such partition"} {
+		if strings.Contains(err.Error(), s) {
+			return false
+		}
+	}
+	return true
+}
+
+// leaderChangesSince counts the committed leader changes of a partition behind Raft index from.
+func (x *c07Run) leaderChangesSince(from uint64, pid int32) (n int, leaders []string) {
+	for _, e := range x.h.cluster.Log {
+		if e.Index <= from || e.Type != raft.LogCommand {
+			continue
+		}
+		op := &proto.RaftLog{}
+		if op.Unmarshal(e.Data) != nil || op.Op != proto.Op_CHANGE_LEADER {
+			continue
+		}
+		if op.ChangeLeaderOp.Stream == c07Stream && op.ChangeLeaderOp.Partition == pid {
+			n++
+			leaders = append(leaders, fmt.Sprintf("%s@%d", op.ChangeLeaderOp.Leader, e.Index))
+		}
+	}
+	return
+}
+
+// judge compares what a step did to a partition with what the statement allows.
+func (x *c07Run) judge(pt *c07Part, what string, before, after c07State, j c07Judge) bool {
+	h := x.h
+	h.oc.Checks++
+	if !c07in(after.isr, after.leader) {
+		h.fail("C07/invariant", "C07/leader-not-in-isr", "partition %d after %s: %s", pt.id, what, after)
+		return false
+	}
+	for _, r := range after.isr {
+		if !c07in(after.replicas, r) {
+			h.fail("C07/invariant", "C07/isr-not-subset-of-replicas", "partition %d after %s: %s", pt.id, what, after)
+			return false
+		}
+	}
+	if after.lepoch < before.lepoch || after.epoch < before.epoch {
+		h.fail("C07/epochs", "C07/epoch-decreased", "partition %d after %s: before %s, after %s", pt.id, what, before, after)
+		return false
+	}
+	if l, ok := pt.leaderOf[after.lepoch]; ok && l != after.leader {
+		h.fail("C07/epochs", "C07/two-leaders-in-one-epoch", "partition %d after %s: leader epoch %d had leader %s, now %s", pt.id, what, after.lepoch, l, after.leader)
+		return false
+	}
+	pt.leaderOf[after.lepoch] = after.leader
+	changed := after.leader != before.leader || after.lepoch != before.lepoch
+	isrChanged := strings.Join(after.isr, ",") != strings.Join(before.isr, ",")
+	switch {
+	case j.stale:
+		x.cnt["probe.stale_requests"]++
+		if j.err == nil || changed || isrChanged {
+			h.fail("C07/fencing", "C07/stale-request-not-refused", "partition %d: %s named a stale leader/epoch but was accepted (error %v): before %s, after %s", pt.id, what, j.err, before, after)
+			return false
+		}
+		return true
+	case j.silent:
+		if changed || isrChanged {
+			h.fail("C07/fencing", "C07/stale-operation-applied", "partition %d: %s must not take effect: before %s, after %s", pt.id, what, before, after)
+			return false
+		}
+		return true
+	case j.frozen:
+		if changed || isrChanged || strings.Join(after.replicas, ",") != strings.Join(before.replicas, ",") {
+			h.fail("C07/fencing", "C07/partition-changed-unasked", "partition %d changed by %s, which does not address it: before %s, after %s", pt.id, what, before, after)
+			return false
+		}
+		return true
+	}
+	if !changed {
+		return true
+	}
+	x.cnt["probe.leader_changes"]++
+	pt.stale = append(pt.stale, before)
+	if !j.reporting {
+		h.fail("C07/election", "C07/leader-changed-without-reports", "partition %d: after %s the leader changed: before %s, after %s", pt.id, what, before, after)
+		return false
+	}
+	if after.leader == before.leader {
+		h.fail("C07/election", "C07/reported-leader-reelected", "partition %d after %s: before %s, after %s", pt.id, what, before, after)
+		return false
+	}
+	if !c07in(before.isr, after.leader) {
+		h.fail("C07/election", "C07/new-leader-not-from-isr", "partition %d: after %s the new leader %s is not in the in-sync set %v", pt.id, what, after.leader, before.isr)
+		return false
+	}
+	if after.lepoch <= before.lepoch {
+		h.fail("C07/epochs", "C07/leader-change-without-new-epoch", "partition %d after %s: before %s, after %s", pt.id, what, before, after)
+		return false
+	}
+	// witnesses: in-sync followers that reported this very (leader, epoch), in a chain of reports each
+	// possibly within the timeout of the next one (a report is registered somewhere between the start
+	// and the end of its call), up to the reports of this step
+	wit := map[string]bool{}
+	last := h.s.Now()
+	for i := len(pt.reports) - 1; i >= 0; i-- {
+		r := pt.reports[i]
+		if r.leader != before.leader || r.lepoch != before.lepoch {
+			break
+		}
+		if last-r.t1 > x.timeout {
+			break
+		}
+		if r.t0 < last {
+			last = r.t0
+		}
+		if r.replica != before.leader && c07in(before.isr, r.replica) {
+			wit[r.replica] = true
+		}
+	}
+	need := (len(before.isr)-1)/2 + 1
+	if len(wit) < need {
+		h.fail("C07/election", "C07/failover-without-quorum", "partition %d: after %s the leader changed from %s (epoch %d) to %s, but only %d in-sync followers %v had reported it within the timeout window; more than half of %d are needed (in-sync set %v)", pt.id, what, before.leader, before.lepoch, after.leader, len(wit), simrt.Keys(wit), len(before.isr)-1, before.isr)
+		return false
+	}
+	return true
+}
+
+// settle reads every partition after a step and judges it: partition k by j, every other one as untouched.
+func (x *c07Run) settle(k int, what string, before []c07State, j c07Judge) bool {
+	if x.h.stop || x.h.oc.Trouble != "" || len(x.h.s.Panics) > 0 {
+		return false
+	}
+	after := x.readAll()
+	if after == nil {
+		return false
+	}
+	for i, pt := range x.parts {
+		ji := j
+		if i != k && k >= 0 {
+			ji = c07Judge{frozen: true}
+			x.cnt["probe.other_partition_checks"]++
+		}
+		if !x.judge(pt, what, before[i], after[i], ji) {
+			return false
+		}
+	}
+	return true
+}
+
+func (x *c07Run) dropWitnesses() {
+	for _, pt := range x.parts {
+		pt.reports = nil
+	}
 }
 
 func execC07(t *testing.T, prog *hx.Program, dec *simrt.Decider, verbose bool) *hx.Outcome {
 	if prog.Param("cluster", 0) == 1 {
 		return execC07Cluster(t, prog, dec, verbose)
 	}
-	changes, accepted, refused, staleOps := 0, 0, 0, 0
-	oc := runH3(t, prog, dec, verbose, 1, func(h *h3) {
-		timeout := time.Duration(prog.Param("timeout_ms", 1000)) * time.Millisecond
+	x := &c07Run{cnt: map[string]int{}, two: prog.Param("two", 0) == 1}
+	nservers := 1
+	if x.two {
+		nservers = 2
+	}
+	oc := runH3(t, prog, dec, verbose, nservers, func(h *h3) {
+		x.h = h
+		x.timeout = time.Duration(prog.Param("timeout_ms", 1000)) * time.Millisecond
+		timeout := x.timeout
 		h.cfgHook = func(n *simNode, c *Config) {
 			c.Clustering.ReplicaMaxLeaderTimeout = timeout
 			c.Clustering.ReplicaMaxLagTime = time.Hour
 		}
-		n := h.single()
+		var n *simNode
+		if x.two {
+			// the second server never is a replica: it is there to forward requests to the controller
+			// (and to become the controller when the first one loses the metadata leadership)
+			for i := range h.nodes {
+				if err := h.startNode(i); err != nil {
+					h.oc.Trouble = "start: " + err.Error()
+					return
+				}
+			}
+			n = x.ctl()
+		} else {
+			n = h.single()
+		}
 		if n == nil {
 			return
 		}
 		nrep := int(prog.Param("replicas", 3))
-		nisr := int(prog.Param("isr", int64(nrep)))
-		var replicas []string
+		x.nisr = int(prog.Param("isr", int64(nrep)))
 		for i := 0; i < nrep; i++ {
-			replicas = append(replicas, fmt.Sprintf("r%d", i))
+			x.replicas = append(x.replicas, fmt.Sprintf("r%d", i))
 		}
-		var cerr error
-		h.rpc(n, "create", func(api *apiServer) {
-			ctx, cancel := ctxT(20 * time.Second)
-			defer cancel()
-			future, err := n.srv.getRaft().applyOperation(ctx, &proto.RaftLog{Op: proto.Op_CREATE_STREAM, CreateStreamOp: &proto.CreateStreamOp{Stream: &proto.Stream{
-				Name: c07Stream, Subject: c07Stream, Config: &proto.StreamConfig{},
-				Partitions: []*proto.Partition{{Stream: c07Stream, Subject: c07Stream, ReplicationFactor: int32(nrep),
-					Replicas: append([]string(nil), replicas...), Isr: append([]string(nil), replicas[:nisr]...), Leader: replicas[0]}},
-			}}}, nil)
-			if err != nil {
-				cerr = err
-				return
-			}
-			cerr = future.Error()
-		})
-		if cerr != nil {
-			h.oc.Trouble = "create: " + cerr.Error()
+		x.senders = append(append([]string{}, x.replicas...), "stranger")
+		for i := 0; i < int(prog.Param("parts", 1)); i++ {
+			x.parts = append(x.parts, &c07Part{id: int32(i), leaderOf: map[uint64]string{}})
+		}
+		if err := x.create(n); err != nil {
+			h.oc.Trouble = "create: " + err.Error()
 			return
 		}
-		read := func() c07State {
-			var st c07State
-			h.do(n.node, "read-state", func() {
-				p := n.srv.metadata.GetPartition(c07Stream, 0)
-				if p == nil {
-					return
-				}
-				st.leader, st.lepoch = p.GetLeader()
-				st.epoch = p.GetEpoch()
-				st.isr = p.GetISR()
-				st.replicas = p.GetReplicas()
-				sort.Strings(st.isr)
-				sort.Strings(st.replicas)
-			})
-			return st
-		}
-		in := func(xs []string, x string) bool {
-			for _, y := range xs {
-				if y == x {
-					return true
-				}
-			}
-			return false
-		}
-		cur := read()
-		if cur.leader == "" {
-			h.oc.Trouble = "partition not found after create"
+		first := x.readAll()
+		if first == nil {
 			return
 		}
-		var reports []c07Report // accepted reports, in time order
-		leaderOf := map[uint64]string{cur.lepoch: cur.leader}
-		stale := []c07State{} // earlier (leader, epoch) generations
-		senders := append(append([]string{}, replicas...), "stranger")
-
-		check := func(what string, before c07State, reporting bool, staleReq bool, st error) bool {
-			after := read()
-			h.oc.Checks++
-			// structural invariants
-			if !in(after.isr, after.leader) {
-				h.fail("C07/invariant", "C07/leader-not-in-isr", "after %s: %s", what, after)
-				return false
-			}
-			for _, r := range after.isr {
-				if !in(after.replicas, r) {
-					h.fail("C07/invariant", "C07/isr-not-subset-of-replicas", "after %s: %s", what, after)
-					return false
-				}
-			}
-			if after.lepoch < before.lepoch || after.epoch < before.epoch {
-				h.fail("C07/epochs", "C07/epoch-decreased", "after %s: before %s, after %s", what, before, after)
-				return false
-			}
-			if l, ok := leaderOf[after.lepoch]; ok && l != after.leader {
-				h.fail("C07/epochs", "C07/two-leaders-in-one-epoch", "after %s: leader epoch %d had leader %s, now %s", what, after.lepoch, l, after.leader)
-				return false
-			}
-			leaderOf[after.lepoch] = after.leader
-			changed := after.leader != before.leader || after.lepoch != before.lepoch
-			isrChanged := strings.Join(after.isr, ",") != strings.Join(before.isr, ",")
-			if staleReq {
-				staleOps++
-				if st == nil || changed || isrChanged {
-					h.fail("C07/fencing", "C07/stale-request-not-refused", "%s named a stale leader/epoch but was accepted (error %v): before %s, after %s", what, st, before, after)
-					return false
-				}
-				return true
-			}
-			if changed {
-				changes++
-				stale = append(stale, before)
-				if !reporting {
-					h.fail("C07/election", "C07/leader-changed-without-reports", "after %s the leader changed: before %s, after %s", what, before, after)
-					return false
-				}
-				if after.leader == before.leader {
-					h.fail("C07/election", "C07/reported-leader-reelected", "after %s: before %s, after %s", what, before, after)
-					return false
-				}
-				if !in(before.isr, after.leader) {
-					h.fail("C07/election", "C07/new-leader-not-from-isr", "after %s the new leader %s is not in the in-sync set %v", what, after.leader, before.isr)
-					return false
-				}
-				if after.lepoch <= before.lepoch {
-					h.fail("C07/epochs", "C07/leader-change-without-new-epoch", "after %s: before %s, after %s", what, before, after)
-					return false
-				}
-				// witnesses: in-sync followers that reported this very (leader, epoch), in a chain of
-				// reports each within the timeout of the next one, up to now
-				now := h.s.Now()
-				wit := map[string]bool{}
-				last := now
-				for i := len(reports) - 1; i >= 0; i-- {
-					r := reports[i]
-					if r.leader != before.leader || r.lepoch != before.lepoch {
-						break
-					}
-					if last-r.at > timeout {
-						break
-					}
-					last = r.at
-					if r.replica != before.leader && in(before.isr, r.replica) {
-						wit[r.replica] = true
-					}
-				}
-				need := (len(before.isr)-1)/2 + 1
-				if len(wit) < need {
-					h.fail("C07/election", "C07/failover-without-quorum", "after %s the leader changed from %s (epoch %d) to %s, but only %d in-sync followers %v had reported it within the timeout window; more than half of %d are needed (in-sync set %v)", what, before.leader, before.lepoch, after.leader, len(wit), simrt.Keys(wit), len(before.isr)-1, before.isr)
-					return false
-				}
-			}
-			return true
+		for i, pt := range x.parts {
+			pt.leaderOf[first[i].lepoch] = first[i].leader
 		}
 
 		sleeps := []time.Duration{timeout / 10, timeout / 2, timeout - time.Millisecond, timeout + time.Millisecond, 2 * timeout}
@@ -328,55 +788,67 @@ func execC07(t *testing.T, prog *hx.Program, dec *simrt.Decider, verbose bool) *
 			if h.stop || h.oc.Trouble != "" || len(h.s.Panics) > 0 {
 				break
 			}
-			before := read()
-			cur = before
+			n = x.ctl()
+			if n == nil {
+				return
+			}
+			before := x.readAll()
+			if before == nil {
+				return
+			}
+			k := int(op.Arg(3, 0)) % len(x.parts)
+			pt, cur := x.parts[k], before[k]
+			// where the request arrives: the controller, or (two-server programs) the other server, which forwards it
+			via := n
+			if x.two && op.Arg(4, 0)%2 == 1 {
+				if o := x.other(n); o != nil {
+					via = o
+				}
+			}
+			fwd := ""
+			if via != n {
+				fwd = " (sent to " + via.id + ", which forwards it)"
+			}
 			switch op.K {
 			case "report", "stale-report":
-				sender := senders[int(op.Arg(0, 0))%len(senders)]
-				leader, lepoch := cur.leader, cur.lepoch
+				sender := x.senders[int(op.Arg(0, 0))%len(x.senders)]
+				leader, lepoch, variant := cur.leader, cur.lepoch, ""
 				isStale := false
 				if op.K == "stale-report" {
-					if len(stale) > 0 && op.Arg(1, 0)%2 == 0 {
-						g := stale[int(op.Arg(2, 0))%len(stale)]
-						leader, lepoch = g.leader, g.lepoch
-					} else if op.Arg(2, 0)%2 == 0 {
-						lepoch = cur.lepoch + 1 + uint64(op.Arg(2, 0))
-					} else {
-						leader = senders[(int(op.Arg(0, 0))+1)%len(senders)]
-					}
+					leader, lepoch, variant = x.stalePair(pt, cur, op.Arg(1, 0), op.Arg(2, 0), true)
 					isStale = leader != cur.leader || lepoch != cur.lepoch
+					if isStale {
+						x.cnt["probe.stale."+variant]++
+					}
 				}
+				t0 := h.s.Now()
 				var err error
-				h.rpc(n, "report", func(api *apiServer) {
-					ctx, cancel := ctxT(10 * time.Second)
-					defer cancel()
-					if st := n.srv.metadata.ReportLeader(ctx, &proto.ReportLeaderOp{Stream: c07Stream, Partition: 0, Replica: sender, Leader: leader, LeaderEpoch: lepoch}); st != nil {
-						err = st.Err()
-					}
-				})
-				what := fmt.Sprintf("report of %s (epoch %d) by %s", leader, lepoch, sender)
-				h.s.Logf("%s -> %v", what, err)
+				h.rpc(via, "report", func(api *apiServer) { err = x.reportRPC(via, pt.id, sender, leader, lepoch) })
+				what := fmt.Sprintf("report of %s (epoch %d) by %s%s", leader, lepoch, sender, fwd)
+				h.s.Logf("partition %d: %s -> %v", pt.id, what, err)
 				if !isStale {
-					// (a report can be refused, e.g. no candidates; it still counts as made if it was not refused for its sender)
-					if err == nil || strings.Contains(err.Error(), "No ISR candidates") {
-						accepted++
-						reports = append(reports, c07Report{at: h.s.Now(), replica: sender, leader: leader, lepoch: lepoch})
+					if c07countsAsMade(err) {
+						x.cnt["probe.reports_accepted"]++
+						pt.reports = append(pt.reports, c07Report{t0: t0, t1: h.s.Now(), replica: sender, leader: leader, lepoch: lepoch})
 					} else {
-						refused++
+						x.cnt["probe.reports_refused"]++
 					}
 				}
-				check(what, before, !isStale, isStale, err)
+				if via != n {
+					x.cnt["probe.forwarded_requests"]++
+				}
+				x.settle(k, what, before, c07Judge{reporting: !isStale, stale: isStale, err: err})
+			case "creport":
+				x.creport(op, k, n, via, before)
 			case "shrink", "stale-shrink", "expand", "stale-expand":
-				leader, lepoch := cur.leader, cur.lepoch
+				leader, lepoch, variant := cur.leader, cur.lepoch, ""
 				isStale := strings.HasPrefix(op.K, "stale-")
 				if isStale {
-					if len(stale) > 0 && op.Arg(1, 0)%2 == 0 {
-						g := stale[int(op.Arg(2, 0))%len(stale)]
-						leader, lepoch = g.leader, g.lepoch
-					} else {
-						lepoch = cur.lepoch + 1
-					}
+					leader, lepoch, variant = x.stalePair(pt, cur, op.Arg(1, 0), op.Arg(2, 0), true)
 					isStale = leader != cur.leader || lepoch != cur.lepoch
+					if isStale {
+						x.cnt["probe.stale."+variant]++
+					}
 				}
 				var err error
 				var what string
@@ -391,18 +863,18 @@ func execC07(t *testing.T, prog *hx.Program, dec *simrt.Decider, verbose bool) *
 						continue
 					}
 					rep := cands[int(op.Arg(0, 0))%len(cands)]
-					what = fmt.Sprintf("shrink of %s naming leader %s (epoch %d)", rep, leader, lepoch)
-					h.rpc(n, "shrink", func(api *apiServer) {
+					what = fmt.Sprintf("shrink of %s naming leader %q (epoch %d)%s", rep, leader, lepoch, fwd)
+					h.rpc(via, "shrink", func(api *apiServer) {
 						ctx, cancel := ctxT(10 * time.Second)
 						defer cancel()
-						if st := n.srv.metadata.ShrinkISR(ctx, &proto.ShrinkISROp{Stream: c07Stream, Partition: 0, ReplicaToRemove: rep, Leader: leader, LeaderEpoch: lepoch}); st != nil {
+						if st := via.srv.metadata.ShrinkISR(ctx, &proto.ShrinkISROp{Stream: c07Stream, Partition: pt.id, ReplicaToRemove: rep, Leader: leader, LeaderEpoch: lepoch}); st != nil {
 							err = st.Err()
 						}
 					})
 				} else {
 					var cands []string
 					for _, r := range cur.replicas {
-						if !in(cur.isr, r) {
+						if !c07in(cur.isr, r) {
 							cands = append(cands, r)
 						}
 					}
@@ -410,17 +882,22 @@ func execC07(t *testing.T, prog *hx.Program, dec *simrt.Decider, verbose bool) *
 						continue
 					}
 					rep := cands[int(op.Arg(0, 0))%len(cands)]
-					what = fmt.Sprintf("expand by %s naming leader %s (epoch %d)", rep, leader, lepoch)
-					h.rpc(n, "expand", func(api *apiServer) {
+					what = fmt.Sprintf("expand by %s naming leader %q (epoch %d)%s", rep, leader, lepoch, fwd)
+					h.rpc(via, "expand", func(api *apiServer) {
 						ctx, cancel := ctxT(10 * time.Second)
 						defer cancel()
-						if st := n.srv.metadata.ExpandISR(ctx, &proto.ExpandISROp{Stream: c07Stream, Partition: 0, ReplicaToAdd: rep, Leader: leader, LeaderEpoch: lepoch}); st != nil {
+						if st := via.srv.metadata.ExpandISR(ctx, &proto.ExpandISROp{Stream: c07Stream, Partition: pt.id, ReplicaToAdd: rep, Leader: leader, LeaderEpoch: lepoch}); st != nil {
 							err = st.Err()
 						}
 					})
 				}
-				h.s.Logf("%s -> %v", what, err)
-				check(what, before, false, isStale, err)
+				h.s.Logf("partition %d: %s -> %v", pt.id, what, err)
+				if via != n {
+					x.cnt["probe.forwarded_requests"]++
+				}
+				x.settle(k, what, before, c07Judge{stale: isStale, err: err})
+			case "raw":
+				x.rawOp(op, k, n, before)
 			case "failraft":
 				// the next metadata operation the controller proposes (an election, an ISR change) fails in
 				// Raft and commits nothing
@@ -429,7 +906,7 @@ func execC07(t *testing.T, prog *hx.Program, dec *simrt.Decider, verbose bool) *
 			case "sleep":
 				d := sleeps[int(op.Arg(0, 0))%len(sleeps)]
 				simrt.Sleep(d)
-				check(fmt.Sprintf("sleeping %v", d), before, false, false, nil)
+				x.settle(-1, fmt.Sprintf("sleeping %v", d), before, c07Judge{frozen: true})
 			case "stepdown":
 				h.s.Logf("controller loses metadata leadership")
 				h.cluster.StepDown()
@@ -439,12 +916,124 @@ func execC07(t *testing.T, prog *hx.Program, dec *simrt.Decider, verbose bool) *
 				}
 				simrt.Sleep(10 * time.Millisecond)
 				// the failover state is dropped with the leadership: earlier reports no longer count
-				reports = nil
-				check("controller leadership change", before, false, false, nil)
+				x.dropWitnesses()
+				x.settle(-1, "controller leadership change", before, c07Judge{frozen: true})
+			case "restart":
+				// a server (the controller in three of four cases) is stopped and started again: it rebuilds the
+				// metadata from its Raft log; a new process has no witnesses
+				victim := n
+				if o := x.other(n); o != nil && op.Arg(0, 0)%4 == 0 {
+					victim = o
+				}
+				h.s.Logf("restart of %s (controller: %s)", victim.id, n.id)
+				if op.Arg(1, 0)%2 == 0 {
+					// it persists a snapshot of its metadata first (and compacts its Raft log): the next
+					// incarnation starts from the snapshot
+					if r := h.cluster.Node(raft.ServerID(victim.id)); r != nil {
+						r.RequestSnapshot([]uint64{0, 2}[int(op.Arg(2, 0))%2])
+						simrt.Sleep(5 * time.Millisecond)
+						x.cnt["probe.restarts_from_snapshot"]++
+					}
+				}
+				h.stopNode(victim.idx)
+				if len(h.s.Panics) > 0 {
+					return
+				}
+				victim.restarts++
+				if err := h.startNode(victim.idx); err != nil {
+					if len(h.s.Panics) == 0 {
+						h.oc.Trouble = "restart: " + err.Error()
+					}
+					return
+				}
+				c := h.waitController(60 * time.Second)
+				if c == nil {
+					h.oc.Trouble = "no controller after the restart"
+					return
+				}
+				h.waitFor("controller-applied-all", 30*time.Second, func() bool {
+					r, ok := c.srv.raft.Load().(*raftNode)
+					return ok && r != nil && r.AppliedIndex() >= h.cluster.CommitIndex()
+				})
+				simrt.Sleep(10 * time.Millisecond)
+				if victim == n || c != n {
+					x.dropWitnesses() // (the controller's memory of the reports went with its process)
+				}
+				x.cnt["probe.restarts"]++
+				x.settle(-1, "restart of "+victim.id, before, c07Judge{frozen: true})
+			case "recreate":
+				// the stream is deleted and created again (other leaders, new epochs): whatever was reported
+				// about the old partitions is gone, and their generations are stale for the new ones
+				if err := x.rawSure(n, "delete", &proto.RaftLog{Op: proto.Op_DELETE_STREAM, DeleteStreamOp: &proto.DeleteStreamOp{Stream: c07Stream}}); err != nil {
+					if len(h.s.Panics) == 0 {
+						h.oc.Trouble = "delete: " + err.Error()
+					}
+					return
+				}
+				x.gen++
+				if err := x.create(n); err != nil {
+					if len(h.s.Panics) == 0 {
+						h.oc.Trouble = "re-create: " + err.Error()
+					}
+					return
+				}
+				after := x.readAll()
+				if after == nil {
+					return
+				}
+				h.s.Logf("stream deleted and created again")
+				x.cnt["probe.stream_recreated"]++
+				for i, p := range x.parts {
+					p.stale = append(p.stale, before[i])
+					p.reports = nil
+					p.paused = false
+					h.oc.Checks++
+					if !c07in(after[i].isr, after[i].leader) {
+						h.fail("C07/invariant", "C07/leader-not-in-isr", "partition %d after re-creating the stream: %s", p.id, after[i])
+						break
+					}
+					if l, ok := p.leaderOf[after[i].lepoch]; ok && l != after[i].leader {
+						h.fail("C07/epochs", "C07/two-leaders-in-one-epoch", "partition %d after re-creating the stream: leader epoch %d had leader %s, now %s", p.id, after[i].lepoch, l, after[i].leader)
+						break
+					}
+					p.leaderOf[after[i].lepoch] = after[i].leader
+				}
+			case "pause", "resume":
+				// pausing closes the partition, resuming replaces the partition object: leader, epochs and the
+				// in-sync set stay what they were
+				var err error
+				if op.K == "resume" && !pt.paused {
+					for _, q := range x.parts { // (whichever partition is paused)
+						if q.paused {
+							pt = q
+						}
+					}
+				}
+				if op.K == "pause" && !pt.paused {
+					err = x.rawSure(n, "pause", &proto.RaftLog{Op: proto.Op_PAUSE_STREAM, PauseStreamOp: &proto.PauseStreamOp{Stream: c07Stream, Partitions: []int32{pt.id}}})
+					pt.paused = true
+					x.cnt["probe.paused"]++
+				} else if op.K == "resume" && pt.paused {
+					err = x.rawSure(n, "resume", &proto.RaftLog{Op: proto.Op_RESUME_STREAM, ResumeStreamOp: &proto.ResumeStreamOp{Stream: c07Stream, Partitions: []int32{pt.id}}})
+					pt.paused = false
+					x.cnt["probe.resumed"]++
+				} else {
+					continue
+				}
+				if err != nil {
+					if len(h.s.Panics) == 0 {
+						h.oc.Trouble = op.K + ": " + err.Error()
+					}
+					return
+				}
+				h.s.Logf("partition %d: %s", pt.id, op.K)
+				x.settle(-1, fmt.Sprintf("%s of partition %d", op.K, pt.id), before, c07Judge{frozen: true})
 			}
 		}
 		if !h.stop && h.oc.Trouble == "" && len(h.s.Panics) == 0 {
-			h.stopNode(0)
+			for i := range h.nodes {
+				h.stopNode(i)
+			}
 		}
 	})
 	for i, v := range oc.Viol {
@@ -456,12 +1045,260 @@ func execC07(t *testing.T, prog *hx.Program, dec *simrt.Decider, verbose bool) *
 	if oc.Counters == nil {
 		oc.Counters = map[string]int{}
 	}
-	oc.Counters["probe.leader_changes"] = changes
-	oc.Counters["probe.reports_accepted"] = accepted
-	oc.Counters["probe.reports_refused"] = refused
-	oc.Counters["probe.stale_requests"] = staleOps
-	oc.Nontrivial = accepted >= 2
+	for _, k := range []string{"probe.leader_changes", "probe.reports_accepted", "probe.reports_refused", "probe.stale_requests"} {
+		oc.Counters[k] = x.cnt[k]
+	}
+	for k, v := range x.cnt {
+		oc.Counters[k] = v
+	}
+	if x.two {
+		oc.Counters["probe.two_server_runs"] = 1
+	}
+	if len(x.parts) > 1 {
+		oc.Counters["probe.multi_partition_runs"] = 1
+	}
+	oc.Nontrivial = x.cnt["probe.reports_accepted"] >= 2
 	return oc
+}
+
+// creport: two to four reports of the current leader are in flight at the same time (the followers of a
+// dead leader time out together). Whatever the interleaving, the round deposes at most one leader: once
+// the leader has changed, the reports still in flight name a stale leader and epoch, and nobody has
+// reported the new leader.
+func (x *c07Run) creport(op hx.Op, k int, n, via *simNode, before []c07State) {
+	h := x.h
+	pt, cur := x.parts[k], before[k]
+	cnt := 2 + int(op.Arg(0, 0))%3
+	pool := x.senders
+	if op.Arg(2, 0)%4 != 0 {
+		var fs []string
+		for _, r := range cur.isr {
+			if r != cur.leader {
+				fs = append(fs, r)
+			}
+		}
+		if len(fs) > 0 {
+			pool = fs
+		}
+	}
+	step := 1 + int(op.Arg(2, 0)/4)%2*int(op.Arg(1, 0)%3) // 1: neighbours; otherwise strides that also repeat a sender
+	type res struct {
+		sender string
+		via    *simNode
+		err    error
+		t1     time.Duration
+		done   bool
+	}
+	var rs []*res
+	for i := 0; i < cnt; i++ {
+		r := &res{sender: pool[(int(op.Arg(1, 0))+i*step)%len(pool)], via: n}
+		if via != n && i%2 == 1 {
+			r.via = via
+		}
+		rs = append(rs, r)
+	}
+	if x.h.prog.Param("inflight_past_quorum", 0) == 0 {
+		// keep the round below the point where a report can arrive after the quorum is complete: the
+		// witnesses that may already be registered plus this round's distinct valid senders reach the
+		// quorum at most with the round's last report, and no valid sender reports twice
+		wit := map[string]bool{}
+		for _, r := range pt.reports {
+			if r.leader == cur.leader && r.lepoch == cur.lepoch {
+				wit[r.replica] = true
+			}
+		}
+		need := (len(cur.isr)-1)/2 + 1
+		var kept []*res
+		seen := map[string]bool{}
+		for _, r := range rs {
+			valid := r.sender != cur.leader && c07in(cur.isr, r.sender)
+			if valid {
+				if seen[r.sender] || wit[r.sender] || len(wit)+len(seen) >= need {
+					continue
+				}
+				seen[r.sender] = true
+			}
+			kept = append(kept, r)
+		}
+		rs = kept
+		if len(rs) < 2 {
+			return
+		}
+	}
+	from := h.cluster.CommitIndex()
+	t0 := h.s.Now()
+	var names []string
+	for _, r := range rs {
+		r := r
+		names = append(names, r.sender)
+		h.s.GoNode(r.via.node, "rpc:creport:"+r.sender, func() {
+			r.err = x.reportRPC(r.via, pt.id, r.sender, cur.leader, cur.lepoch)
+			r.t1 = h.s.Now()
+			r.done = true
+		})
+	}
+	simrt.WaitUntil("concurrent-reports", func() bool {
+		for _, r := range rs {
+			if !r.done && !h.s.Crashed(r.via.node) {
+				return false
+			}
+		}
+		return true
+	})
+	if len(h.s.Panics) > 0 {
+		return
+	}
+	what := fmt.Sprintf("%d concurrent reports of %s (epoch %d) by %v", len(rs), cur.leader, cur.lepoch, names)
+	sort.SliceStable(rs, func(i, j int) bool { return rs[i].t1 < rs[j].t1 })
+	made := 0
+	for _, r := range rs {
+		h.s.Logf("partition %d: concurrent report by %s -> %v", pt.id, r.sender, r.err)
+		if r.done && c07countsAsMade(r.err) {
+			made++
+			x.cnt["probe.reports_accepted"]++
+			pt.reports = append(pt.reports, c07Report{t0: t0, t1: r.t1, replica: r.sender, leader: cur.leader, lepoch: cur.lepoch})
+		} else {
+			x.cnt["probe.reports_refused"]++
+		}
+	}
+	x.cnt["probe.concurrent_rounds"]++
+	changes, leaders := x.leaderChangesSince(from, pt.id)
+	h.oc.Checks++
+	if changes > 0 {
+		x.cnt["probe.concurrent_rounds_with_failover"]++
+	}
+	if changes > 1 {
+		flavour := "same-leader-again-in-a-new-epoch"
+		for _, l := range leaders[1:] {
+			if strings.Split(l, "@")[0] != strings.Split(leaders[0], "@")[0] {
+				flavour = "another-leader"
+			}
+		}
+		h.fail("C07/election", "C07/one-round-of-reports-two-elections/"+flavour, "partition %d: %s led to %d leader changes %v: the later ones replace a leader that nobody reported, on the strength of reports naming its predecessor (before: %s)", pt.id, what, changes, leaders, cur)
+		return
+	}
+	x.settle(k, what, before, c07Judge{reporting: true})
+}
+
+// rawOp: what the controller's check of a request cannot rule out - an operation that was valid when it was
+// proposed and is stale when it is applied (another operation was committed in between), or that is
+// delivered to the state machine again - must be ignored by the state machine of every server.
+func (x *c07Run) rawOp(op hx.Op, k int, n *simNode, before []c07State) {
+	h := x.h
+	pt, cur := x.parts[k], before[k]
+	var followers, outside []string
+	for _, r := range cur.isr {
+		if r != cur.leader {
+			followers = append(followers, r)
+		}
+	}
+	for _, r := range cur.replicas {
+		if !c07in(cur.isr, r) {
+			outside = append(outside, r)
+		}
+	}
+	pick := func(xs []string) string { return xs[int(op.Arg(0, 0))%len(xs)] }
+	var what string
+	var err error
+	switch v := int(op.Arg(4, 0)+op.Arg(0, 0)) % 5; v {
+	case 0: // SHRINK_ISR proposed by a deposed leader (or with any other pair that is not the current one)
+		if len(followers) == 0 {
+			return
+		}
+		leader, lepoch, variant := x.stalePair(pt, cur, op.Arg(1, 0), op.Arg(2, 0), false)
+		rep := pick(followers)
+		what = fmt.Sprintf("committed SHRINK_ISR of %s naming leader %s (epoch %d, %s)", rep, leader, lepoch, variant)
+		err = x.raw(n, "raw-shrink", &proto.RaftLog{Op: proto.Op_SHRINK_ISR, ShrinkISROp: &proto.ShrinkISROp{Stream: c07Stream, Partition: pt.id, ReplicaToRemove: rep, Leader: leader, LeaderEpoch: lepoch}})
+		x.cnt["probe.raw_stale_shrink"]++
+	case 1:
+		if len(outside) == 0 {
+			return
+		}
+		leader, lepoch, variant := x.stalePair(pt, cur, op.Arg(1, 0), op.Arg(2, 0), false)
+		rep := pick(outside)
+		what = fmt.Sprintf("committed EXPAND_ISR by %s naming leader %s (epoch %d, %s)", rep, leader, lepoch, variant)
+		err = x.raw(n, "raw-expand", &proto.RaftLog{Op: proto.Op_EXPAND_ISR, ExpandISROp: &proto.ExpandISROp{Stream: c07Stream, Partition: pt.id, ReplicaToAdd: rep, Leader: leader, LeaderEpoch: lepoch}})
+		x.cnt["probe.raw_stale_expand"]++
+	case 2: // CHANGE_LEADER to a replica that has left the in-sync set since the controller chose it (or never was a replica)
+		cand := "stranger"
+		if len(outside) > 0 && op.Arg(1, 0)%4 != 0 {
+			cand = pick(outside)
+		}
+		what = fmt.Sprintf("committed CHANGE_LEADER to %s, which is not in the in-sync set", cand)
+		err = x.raw(n, "raw-change-leader", &proto.RaftLog{Op: proto.Op_CHANGE_LEADER, ChangeLeaderOp: &proto.ChangeLeaderOp{Stream: c07Stream, Partition: pt.id, Leader: cand}})
+		x.cnt["probe.raw_change_leader_outside_isr"]++
+	case 3: // an operation delivered again with an epoch the partition has reached already
+		old := cur.epoch
+		if d := uint64(op.Arg(1, 0) % 3); d <= old {
+			old -= d
+		}
+		if op.Arg(2, 0)%5 == 0 {
+			old = 0
+		}
+		which := int(op.Arg(2, 0)) % 3
+		if which == 0 && len(followers) == 0 || which == 1 && len(outside) == 0 {
+			which = 2
+		}
+		if which == 2 && len(followers) == 0 {
+			return
+		}
+		h.do(n.node, "old-epoch-operation", func() {
+			m := n.srv.metadata
+			switch which {
+			case 0:
+				rep := pick(followers)
+				what = fmt.Sprintf("RemoveFromISR(%s) with epoch %d (partition epoch %d)", rep, old, cur.epoch)
+				err = m.RemoveFromISR(c07Stream, rep, pt.id, old)
+			case 1:
+				rep := pick(outside)
+				what = fmt.Sprintf("AddToISR(%s) with epoch %d (partition epoch %d)", rep, old, cur.epoch)
+				err = m.AddToISR(c07Stream, rep, pt.id, old)
+			default:
+				rep := pick(followers)
+				what = fmt.Sprintf("ChangeLeader(%s) with epoch %d (partition epoch %d)", rep, old, cur.epoch)
+				err = m.ChangeLeader(c07Stream, rep, pt.id, old)
+			}
+		})
+		x.cnt["probe.old_epoch_operation"]++
+	default: // the partition itself refuses a leader epoch below its own
+		if cur.lepoch == 0 {
+			return
+		}
+		lower := cur.lepoch - 1
+		if d := uint64(op.Arg(1, 0)); d < cur.lepoch && op.Arg(2, 0)%2 == 0 {
+			lower = cur.lepoch - 1 - d
+		}
+		cand := cur.leader
+		if len(followers) > 0 && op.Arg(2, 0)%3 != 0 {
+			cand = pick(followers)
+		}
+		var serr error
+		h.do(n.node, "set-leader-lower-epoch", func() {
+			if p := n.srv.metadata.GetPartition(c07Stream, pt.id); p != nil {
+				serr = p.SetLeader(cand, lower)
+			} else {
+				serr = fmt.Errorf("no partition")
+			}
+		})
+		what = fmt.Sprintf("SetLeader(%s, %d) below the leader epoch %d", cand, lower, cur.lepoch)
+		x.cnt["probe.set_leader_lower_epoch"]++
+		h.s.Logf("partition %d: %s -> %v", pt.id, what, serr)
+		h.oc.Checks++
+		if serr == nil {
+			h.fail("C07/epochs", "C07/lower-leader-epoch-accepted", "partition %d: %s was accepted (before: %s)", pt.id, what, cur)
+			return
+		}
+		x.settle(k, what, before, c07Judge{silent: true})
+		return
+	}
+	h.s.Logf("partition %d: %s -> %v", pt.id, what, err)
+	if err != nil {
+		if len(h.s.Panics) == 0 && h.oc.Trouble == "" && strings.HasPrefix(what, "committed") {
+			// (a proposal that fails - 'failraft' - commits nothing: nothing to judge but that nothing changed)
+			x.cnt["probe.raw_not_committed"]++
+		}
+	}
+	x.settle(k, what, before, c07Judge{silent: true})
 }
 
 func init() {
